@@ -588,6 +588,8 @@ class C15(Base):
         pivot_s = rng.randint(1, pivot_n)
         pivot_r = rng.randint(1, 3)
         pivot_d = rng.randint(1, 3)
+        from ..driver import draw_costs
+        pivot_costs = draw_costs(rng)
         if e3:
             nmax, rfmax = min(nmax, 40), min(rfmax, 32)
         for _ in range(nslots):
@@ -605,11 +607,16 @@ class C15(Base):
                     cfg["p"]["r"], cfg["p"]["d"] = r, s - r
                     if rng.random() < 0.3:
                         cfg["p"]["r"], cfg["p"]["d"] = pivot_r, pivot_d
-            elif rng.random() < 0.3 and "uf" in cfg["p"]:
-                # Revolve family: same unit counts, different cost vectors
-                cfg["N"] = max(1, min(pivot_n + rng.choice((0, 0, 1, 7)),
-                                      rfmax))
-                cfg["p"]["s"] = 1 + pivot_s % 3
+            elif "uf" in cfg["p"]:
+                u = rng.random()
+                if u < 0.25:
+                    # same unit counts, different cost vectors
+                    cfg["N"] = max(1, min(pivot_n + rng.choice((0, 0, 1, 7)),
+                                          rfmax))
+                    cfg["p"]["s"] = 1 + pivot_s % 3
+                elif u < 0.65:
+                    # same cost vector, different sizes and unit counts
+                    cfg["p"].update(pivot_costs)
             slots.append((cfg, draw_passes(rng, cfg, 2), "every"))
         if e3:
             # engine E3: the same tasks, pre-empted at line granularity
